@@ -74,7 +74,49 @@ func explainRaw(r *rand.Rand) Case {
 	return Case{Op: "explain-raw " + X(e), Impl: impl, Tags: []string{"explain:real-error"}, Nontrivial: impl != X("")}
 }
 
+// explain-exh: EVERY sequence of up to 5 (quick) / 7 (thorough) tokens from a small vocabulary of labels,
+// separators and text, through GetOnlyExplainErr (model comparison on the raw string)
+var explainTokens = []string{"explain: ", "说明: ", "; ", "a", ";", " ", "中"}
+
+func explainExhLen(tier string) int {
+	if tier == "thorough" {
+		return 7
+	}
+	return 5
+}
+
 func init() {
+	cnt := func(n int) int {
+		t, c := 0, 1
+		for l := 0; l <= n; l++ {
+			t += c
+			c *= len(explainTokens)
+		}
+		return t
+	}
+	register(&Stream{
+		Name: "explain-exh",
+		Rule: "exhaustive: every sequence of up to 5 (quick) / 7 (thorough) tokens from {explain:␠ 说明:␠ ;␠ a ; ␠ 中} through GetOnlyExplainErr, compared with the model. non-trivial: a non-empty extraction; distinct by request",
+		EnumSize: func(tier string) int { return cnt(explainExhLen(tier)) },
+		Enum: func(i int, tier string) Case {
+			k, n := len(explainTokens), explainExhLen(tier)
+			e := ""
+			for l, c := 0, 1; l <= n; l, c = l+1, c*k {
+				if i < c {
+					parts := make([]string, l)
+					for j := l - 1; j >= 0; j-- {
+						parts[j] = explainTokens[i%k]
+						i /= k
+					}
+					e = strings.Join(parts, "")
+					break
+				}
+				i -= c
+			}
+			impl := guard(func() string { return X(valid.GetOnlyExplainErr(e)) })
+			return Case{Op: "explain-raw " + X(e), Impl: impl, Tags: []string{"explain:exhaustive"}, Nontrivial: impl != X("")}
+		},
+	})
 	register(&Stream{
 		Name: "explain",
 		Rule: "GetOnlyExplainErr on (a) synthetic errors of 1-6 clauses in every mix and order of 说明:-labelled, explain:-labelled and unlabelled clauses " +
